@@ -5,7 +5,7 @@ A code fragment is `Frag`-well-formed when its operands are in range and of the 
 jumps land on instruction boundaries *of the fragment* (its end included), and Begin/End are balanced.
 The invariant is closed under concatenation and under every emit scheme of the compiler (CompileWf.lean).
 -/
-namespace ExprModel
+namespace ExprModel.Bc
 
 /-! ### instruction boundaries -/
 
@@ -39,7 +39,7 @@ theorem boundary_skip : ∀ (a b : List Instr) (t : Nat),
   | [], b, t, _, h => by simpa using h
   | i :: a, b, t, h1, h2 => by
     simp only [codeSize_cons] at h1 h2
-    have hp := i.size_pos
+    have hp := instr_size_pos i
     simp only [List.cons_append, instrBoundary, Bool.or_eq_true, beq_iff_eq, Bool.and_eq_true, decide_eq_true_eq]
     refine Or.inr ⟨by omega, boundary_skip a b _ (by omega) ?_⟩
     have : t - i.size - codeSize a = t - (i.size + codeSize a) := by omega
@@ -191,4 +191,4 @@ theorem NestBal.scope {body : List Instr} (hb : NestBal body) (a1 a2 : Nat) :
   intro d
   simp [nestOk_append, nestOk, hb (d + 1)]
 
-end ExprModel
+end ExprModel.Bc
